@@ -120,4 +120,37 @@ theorem list_ptr_swap (H : Nstd.Seq.Ptr2.Heap) (eA eB : Nat) (A B : Nstd.Seq.Ptr
     (Nstd.Seq.Ptr2.swap H eA eB A B).2.1.blocks = B.blocks ∧ (Nstd.Seq.Ptr2.swap H eA eB A B).2.2.blocks = A.blocks :=
   Nstd.Seq.ptr_swap H eA eB A B xsA fsA xsB fsB hne nd hs ha hb
 
+-- which address an insert takes, at the level of the tree model (area Avl) ---------------------------------------------------
+
+/-- Map / MultiMap, every key type (= `Avl.G.insert_takes_free_head`): an operation that creates an item is a plain or hinted insert,
+    the new item - the one the returned iterator designates - has the id `alloc.1`: the head of the LIFO free list, or with an
+    empty free list the last slot of a freshly allocated block (`Avl.alloc_lifo`); that id is the id of NO live item (an address is
+    reused only after its item was removed, or was never used); the free list loses exactly that id. -/
+theorem map_insert_takes_free_head {K : Type} [Nstd.Avl.KeyOrder K] (multi : Bool) (ops : List (Nstd.Avl.G.Op K))
+    (op : Nstd.Avl.G.Op K) (r : Nstd.Avl.G.St K × Nstd.Avl.Out)
+    (h : Nstd.Avl.G.step (Nstd.Avl.G.run multi ops) op = some r) (hc : r.1.size = (Nstd.Avl.G.run multi ops).size + 1) :
+    ((∃ k v, op = .insert k v) ∨ (∃ p k v, op = .insertAt p k v)) ∧
+    (∃ q, r.2.ret = .it q ∧ (r.1.t.inorder.map (fun e => e.1))[q]? = some (Nstd.Avl.G.run multi ops).alloc.1) ∧
+    (Nstd.Avl.G.run multi ops).alloc.1 ∉ (Nstd.Avl.G.run multi ops).t.inorder.map (fun e => e.1) ∧
+    r.1.free = (Nstd.Avl.G.run multi ops).alloc.2.free ∧ r.1.blocks = (Nstd.Avl.G.run multi ops).alloc.2.blocks :=
+  Nstd.Avl.G.insert_takes_free_head multi ops op r h hc
+
+/-- Map / MultiMap (= `Avl.G.remove_then_insert_reuses`): the item created by the first creating operation after `remove(iterator)`
+    gets exactly the address of the item just removed, and the free list is back to what it was. -/
+theorem map_remove_then_insert_reuses {K : Type} [Nstd.Avl.KeyOrder K] (multi : Bool) (ops : List (Nstd.Avl.G.Op K)) (p : Nat)
+    (r1 : Nstd.Avl.G.St K × Nstd.Avl.Out) (h1 : Nstd.Avl.G.step (Nstd.Avl.G.run multi ops) (.removeAt p) = some r1)
+    (op : Nstd.Avl.G.Op K) (r2 : Nstd.Avl.G.St K × Nstd.Avl.Out) (h2 : Nstd.Avl.G.step r1.1 op = some r2)
+    (hc : r2.1.size = r1.1.size + 1) :
+    ∃ q, r2.2.ret = .it q ∧ (r2.1.t.inorder.map (fun e => e.1))[q]? = (Nstd.Avl.G.run multi ops).order[p]? ∧
+      r2.1.free = (Nstd.Avl.G.run multi ops).free :=
+  Nstd.Avl.G.remove_then_insert_reuses multi ops p r1 h1 op r2 h2 hc
+
+/-- the allocation order of the node pool of Map / MultiMap (= `Avl.alloc_lifo`; the items-per-block constant is translated from the
+    current headers): head of the free list, else the last slot of a fresh block, the other slots pushed highest on top. -/
+theorem map_alloc_lifo (s : Nstd.Avl.St) :
+    (∀ i rest, s.free = i :: rest → s.alloc = (i, { s with free := rest })) ∧
+    (s.free = [] → s.alloc = (Nstd.Avl.ipbOf s.multi * s.blocks + (Nstd.Avl.ipbOf s.multi - 1),
+        { s with free := Nstd.Avl.blockItems (Nstd.Avl.ipbOf s.multi * s.blocks) (Nstd.Avl.ipbOf s.multi - 1), blocks := s.blocks + 1 })) :=
+  Nstd.Avl.alloc_lifo s
+
 end Nstd.Life.Mech
